@@ -103,6 +103,7 @@ static void resolve(void)
 /* ---- global configuration ---- */
 static volatile int g_fake_sndbuf;
 static volatile int g_trace_fd = -1;
+static volatile int g_trace_errors_only;
 static char g_trace_prefix[512];
 static volatile int g_poison;
 static volatile uint64_t g_delay_seed;
@@ -183,6 +184,7 @@ __attribute__((constructor)) static void ipcmon_init(void)
         sscanf(e, "%d:%d:%d", &f, &u, &l);
         g_widen = f; g_widen_us = u; g_widen_min_len = l;
     }
+    if ((e = getenv("IPCMON_TRACE_ERRORS"))) g_trace_errors_only = atoi(e);
     if ((e = getenv("IPCMON_TRACE"))) {
         strncpy(g_trace_prefix, e, sizeof g_trace_prefix - 1);
         open_trace();
@@ -200,6 +202,14 @@ static void tracef(const char *fmt, ...)
     n += vsnprintf(buf + n, sizeof buf - n - 1, fmt, ap);
     va_end(ap);
     if (n > (int)sizeof buf - 2) n = sizeof buf - 2;
+    buf[n] = 0;
+    if (g_trace_errors_only) {
+        /* keep only calls that failed with something else than EAGAIN, alarms, kills and notes */
+        const char *e = strstr(buf, " err=");
+        int keep = strstr(buf, "ALARM") || strstr(buf, "KILL") || strstr(buf, "NOTE") || strstr(buf, "INJECT") || strstr(buf, "FORCED");
+        if (e && strncmp(e, " err=0", 6) != 0 && strncmp(e, " err=11 ", 8) != 0 && strcmp(e, " err=11") != 0) keep = 1;
+        if (!keep) return;
+    }
     buf[n++] = '\n';
     syscall(SYS_write, g_trace_fd, buf, n);
 }
